@@ -350,6 +350,7 @@ class Interp:
         self.depth = 0
         self.cur_line = 0
         self.prefix_hooks = [(k[:-1], v) for k, v in self.hooks.items() if k.endswith("*")]
+        self.elem_home = {}     # id(record object) -> the Vec it was addressed in (&vec[i]); used for pointer differences
         self.vhooks = {}        # callee qualified name -> python callable(interp, receiver, [argument values]); also reached
                                 # through std::bind / std::function / for_each, where no call node exists
         self.bounded = set()    # symbols assumed far smaller in magnitude than DBL_MAX
@@ -1032,6 +1033,8 @@ class Interp:
             r = self.lv(c, env)
             v = r.get() if not isinstance(r, Box) or isinstance(r.v, Obj) else None
             if isinstance(v, Obj):
+                if isinstance(r, ElemRef) and isinstance(getattr(r, "v", None), Vec):
+                    self.elem_home[id(v)] = r.v       # &vec[i]: remember the array, for pointer differences
                 return v
             return r
         if op == "*":
@@ -1122,6 +1125,15 @@ class Interp:
             # pointer arithmetic on an array modelled as Vec: p + k is an iterator into the same array
             base_, off_ = (a_, 0) if isinstance(a_, Vec) else (a_.v, a_.i)
             return Iter(base_, off_ + (b_ if op == "+" else -b_))
+        if op == "-" and isinstance(a_, Obj) and isinstance(b_, Obj):
+            # difference of two pointers to elements of one array of records
+            home = self.elem_home.get(id(b_)) or self.elem_home.get(id(a_))
+            if home is not None:
+                ia = [k for k, x in enumerate(home.items) if x is a_]
+                ib = [k for k, x in enumerate(home.items) if x is b_]
+                if ia and ib:
+                    return ia[0] - ib[0]
+            raise Unsupported("difference of pointers that are not known to point into one array")
         return self.arith(op, a_, b_, n.get("t", ""))
 
     def e_CompoundAssignOperator(self, n, env):
